@@ -371,6 +371,145 @@ fn multi_archive_check(check: &Check) {
     }
 }
 
+/// Generated cases for the multi-archive helpers: 0..9 archives with overlapping file sets, a single
+/// name / a name list (duplicates, case and slash variants, missing names) / a search pattern /
+/// a processor; each helper must return one entry per archive in the order given, equal to what
+/// opening and reading the archives one after the other gives, and must fail as a whole exactly
+/// when one of those sequential steps fails.
+fn multi_archive_generated(check: &Check, cases: usize) {
+    use rand::Rng;
+    use wow_mpq::parallel::*;
+    let mut rng = engine::rng(check.sub_seed("c09-multi"));
+    let pool = ["common\\a.dat", "common\\b.dat", "Dir\\Sub\\c.bin", "d.txt", "only\\e.bin", "f", "Common\\g.DAT", "h.h"];
+    for case in 0..cases {
+        let dir = engine::scratch("c09mg");
+        let k = [0usize, 1, 2, 2, 3, 5, 9][rng.random_range(0..7)];
+        let mut paths = vec![];
+        let mut specs = vec![];
+        for a in 0..k {
+            let n = rng.random_range(0..=pool.len().min(6));
+            let mut idx: Vec<usize> = (0..pool.len()).collect();
+            for i in 0..n {
+                let j = rng.random_range(i..idx.len());
+                idx.swap(i, j);
+            }
+            let files: Vec<FileSpec> = idx[..n]
+                .iter()
+                .map(|&i| FileSpec {
+                    name: pool[i].to_string(),
+                    class: ALL_CLASSES[(i + a) % ALL_CLASSES.len()],
+                    len: LenSpec { halves: rng.random_range(0..4), delta: rng.random_range(0..9) },
+                    seed: rng.random(),
+                    method: METHODS[rng.random_range(0..4)],
+                    enc: if rng.random_range(0..6) == 0 { Enc::Key } else { Enc::None },
+                })
+                .collect();
+            let spec = ArchiveSpec { version: rng.random_range(1..=4), shift: rng.random_range(0..3), crcs: false, attrs: Attrs::None, listfile: true, compress_tables: false, table_method: M_ZLIB, files };
+            let p = dir.path().join(format!("g{a}.mpq"));
+            if spec.builder().build(&p).is_err() {
+                continue;
+            }
+            paths.push(p);
+            specs.push(spec);
+        }
+        let spell = |rng: &mut rand_chacha::ChaCha8Rng, n: &str| match rng.random_range(0..4) {
+            0 => n.to_ascii_uppercase(),
+            1 => n.replace('\\', "/"),
+            2 => n.to_ascii_lowercase(),
+            _ => n.to_string(),
+        };
+        let pick = |rng: &mut rand_chacha::ChaCha8Rng| if rng.random_range(0..6) == 0 { "not\\there.bin".to_string() } else { let i = rng.random_range(0..pool.len()); spell(rng, pool[i]) };
+        let seq_read = |p: &std::path::PathBuf, n: &str| -> Result<Vec<u8>, String> { Archive::open(p).and_then(|mut a| a.read_file(n)).map_err(|e| err_kind(&e)) };
+        let class = |what: &str, any_err: bool| format!("multi-gen:{what}:archives{}:{}", paths.len().min(4), if any_err { "some-step-fails" } else { "all-ok" });
+        let contention = case % 4 == 3;
+
+        // one name from every archive
+        let name = pick(&mut rng);
+        let want: Vec<Result<Vec<u8>, String>> = paths.iter().map(|p| seq_read(p, &name)).collect();
+        let any_err = want.iter().any(|w| w.is_err());
+        check.count(&class("one-name", any_err), paths.len() >= 2);
+        match with_contention(contention, || extract_from_multiple_archives(&paths, &name)) {
+            Ok(v) => {
+                if any_err {
+                    check.fail(&engine::Fail::new("extract_from_multiple_archives-ok-despite-missing", format!("{name:?} cannot be read from every archive, yet Ok")), json!({"multi": "gen-one", "case": case}));
+                } else if v.len() != paths.len() || v.iter().enumerate().any(|(i, (p, d))| p != &paths[i] || Ok(d.clone()) != want[i]) {
+                    check.fail(&engine::Fail::new("extract_from_multiple_archives-differs", format!("{name:?} over {} archives: result differs from reading the archives in turn", paths.len())), json!({"multi": "gen-one", "case": case}));
+                }
+            }
+            Err(e) => {
+                if !any_err {
+                    check.fail(&engine::Fail::new("extract_from_multiple_archives-fails", format!("{name:?}: {e}")), json!({"multi": "gen-one", "case": case}));
+                }
+            }
+        }
+        // several names from every archive
+        let names: Vec<String> = (0..rng.random_range(0..5)).map(|_| pick(&mut rng)).collect();
+        let refs: Vec<&str> = names.iter().map(|s| s.as_str()).collect();
+        let wantm: Vec<Vec<Result<Vec<u8>, String>>> = paths.iter().map(|p| names.iter().map(|n| seq_read(p, n)).collect()).collect();
+        let any_err = wantm.iter().flatten().any(|w| w.is_err());
+        check.count(&class(&format!("names{}", names.len().min(3)), any_err), paths.len() >= 2 && names.len() >= 2);
+        match with_contention(contention, || extract_multiple_from_multiple_archives(&paths, &refs)) {
+            Ok(v) => {
+                let same = v.len() == paths.len()
+                    && v.iter().enumerate().all(|(i, (p, files))| {
+                        p == &paths[i] && files.len() == names.len() && files.iter().enumerate().all(|(j, (n, d))| n == &names[j] && Ok(d.clone()) == wantm[i][j])
+                    });
+                if any_err {
+                    check.fail(&engine::Fail::new("extract_multiple_from_multiple_archives-ok-despite-missing", format!("{names:?}")), json!({"multi": "gen-many", "case": case}));
+                } else if !same {
+                    check.fail(&engine::Fail::new("extract_multiple_from_multiple_archives-differs", format!("{names:?} over {} archives", paths.len())), json!({"multi": "gen-many", "case": case}));
+                }
+            }
+            Err(e) => {
+                if !any_err {
+                    check.fail(&engine::Fail::new("extract_multiple_from_multiple_archives-fails", format!("{names:?}: {e}")), json!({"multi": "gen-many", "case": case}));
+                }
+            }
+        }
+        // search: names of each archive's listing that contain the pattern
+        let pat = ["common", "Common", ".dat", "\\", "e", "", "zzz", "DAT"][rng.random_range(0..8)];
+        let wants: Vec<Result<Vec<String>, String>> = paths
+            .iter()
+            .map(|p| Archive::open(p).and_then(|mut a| a.list()).map(|l| l.into_iter().map(|e| e.name).filter(|n| n.contains(pat)).collect()).map_err(|e| err_kind(&e)))
+            .collect();
+        let any_err = wants.iter().any(|w| w.is_err());
+        check.count(&class("search", any_err), paths.len() >= 2);
+        match search_in_multiple_archives(&paths, pat) {
+            Ok(v) => {
+                let same = v.len() == paths.len()
+                    && v.iter().enumerate().all(|(i, (p, m))| {
+                        let mut a = m.clone();
+                        let mut b = wants[i].clone().unwrap_or_default();
+                        a.sort();
+                        b.sort();
+                        p == &paths[i] && a == b
+                    });
+                if any_err || !same {
+                    check.fail(&engine::Fail::new("search_in_multiple_archives-differs", format!("pattern {pat:?} over {} archives", paths.len())), json!({"multi": "gen-search", "case": case}));
+                }
+            }
+            Err(e) => {
+                if !any_err {
+                    check.fail(&engine::Fail::new("search_in_multiple_archives-fails", format!("{pat:?}: {e}")), json!({"multi": "gen-search", "case": case}));
+                }
+            }
+        }
+        // processor: one result per archive, in order
+        check.count(&class("process", false), paths.len() >= 2);
+        match process_archives_parallel(&paths, |mut a| Ok(a.list()?.len())) {
+            Ok(v) => {
+                let w: Vec<usize> = paths.iter().map(|p| Archive::open(p).and_then(|mut a| a.list()).map(|l| l.len()).unwrap_or(usize::MAX)).collect();
+                if v != w {
+                    check.fail(&engine::Fail::new("process_archives_parallel-differs", format!("{v:?} vs {w:?}")), json!({"multi": "gen-process", "case": case}));
+                }
+            }
+            Err(e) => {
+                check.fail(&engine::Fail::new("process_archives_parallel-fails", format!("{e}")), json!({"multi": "gen-process", "case": case}));
+            }
+        }
+    }
+}
+
 fn fixed_spec(nfiles: usize) -> ArchiveSpec {
     ArchiveSpec {
         version: 2,
@@ -453,6 +592,7 @@ fn main() {
     }
 
     multi_archive_check(&check);
+    multi_archive_generated(&check, check.tier.pick(60usize, 1500));
     let g = grid(check.tier == engine::Tier::Thorough);
     for c in &g {
         if let Err(f) = check_case(&check, c, "grid") {
